@@ -99,7 +99,7 @@ def norm_trace(t):
 # ----------------------------------------------------------------------------------------------
 
 def build_dyn(adapter):
-    """Synthesize and build the harness module of one adapter: go/c19/<adapter>/{go.mod,main.go} + go/c19/probe +
+    """Synthesize and build the harness module of one adapter: go/c19/<adapter>/main.go + go/c19/probe +
     the adapter's own non-test sources (copied from $VERIF_REPO, compiled as package c19h/adapter) against
     $VERIF_REPO's core.  (The adapter modules pin sentinel-golang v1.0.x and old `go` directives; building them as
     modules against the current tree needs module files that are not in the offline cache, compiling their sources
@@ -109,12 +109,23 @@ def build_dyn(adapter):
     shutil.rmtree(bd, ignore_errors=True)
     os.makedirs(os.path.join(bd, "probe"))
     os.makedirs(os.path.join(bd, "adapter"))
-    mod = open(os.path.join(src, "go.mod")).read().replace("=> /repo", "=> " + core.REPO)
+    ad = os.path.join(core.REPO, "pkg", "adapters", adapter)
+    # go.mod = the adapter's own requirement list (complete, so it resolves offline), as module c19h at go 1.22,
+    # with sentinel-golang replaced by the tree under test
+    mod = []
+    for l in open(os.path.join(ad, "go.mod")).read().splitlines():
+        if l.startswith("module "):
+            l = "module c19h"
+        elif re.match(r"go \d", l):
+            l = "go 1.22"
+        elif l.startswith("toolchain ") or (l.startswith("replace ") and "sentinel-golang" in l):
+            continue
+        mod.append(l)
+    mod.append("replace github.com/alibaba/sentinel-golang => " + core.REPO)
     with open(os.path.join(bd, "go.mod"), "w") as f:
-        f.write(mod)
+        f.write("\n".join(mod) + "\n")
     shutil.copy(os.path.join(src, "main.go"), bd)
     shutil.copy(os.path.join(DYN_SRC, "probe", "probe.go"), os.path.join(bd, "probe"))
-    ad = os.path.join(core.REPO, "pkg", "adapters", adapter)
     for f in sorted(glob.glob(os.path.join(ad, "*.go"))):
         if not f.endswith("_test.go") and "_example" not in os.path.basename(f):
             shutil.copy(f, os.path.join(bd, "adapter"))
